@@ -93,7 +93,10 @@ def expected(L, R, op):
             return ('class', 'Quaternion')
         return ('raise',)
     if pair == {'DualQuaternion', 'UnitDualQuaternion'}:
-        return ('unjudged', 'DualQuaternion with its subclass')
+        # DualQuaternion.__mul__ docstring: "If both are unit dual quaternions, the product will be a unit dual quaternion"
+        if op in ('mul', 'add', 'sub'):
+            return ('class', 'DualQuaternion')
+        return ('unjudged', 'DualQuaternion with its subclass under an operator the documentation does not mention')
     if (L, R) in (('Twist3', 'SE3'), ('Twist2', 'SE2')) and op == 'mul':
         return ('class', R)
     if (L, R) == ('SE3', 'Plucker') and op == 'mul':
